@@ -2,7 +2,7 @@
 # offline setup: overlay venv on top of /venv with crosshair-tool (brings z3-solver) and cvc5
 set -e
 cd "$(dirname "$0")"
-V=/verif/.venv
+V="$PWD/.venv"
 if [ ! -x "$V/bin/python" ] || ! "$V/bin/python" -c 'import z3, crosshair, klepto' 2>/dev/null; then
   rm -rf "$V"
   /venv/bin/python -m venv "$V"
